@@ -206,6 +206,18 @@ impl<'a, H: HashChain> InMemoryLmsSignature<'a, H> {
         })
     }
 
+    pub fn len(&self) -> usize {
+        crate::constants::lms_signature_length(
+            self.lmots_signature
+                .lmots_parameter
+                .get_hash_function_output_size(),
+            self.lmots_signature
+                .lmots_parameter
+                .get_num_winternitz_chains() as usize,
+            self.lms_parameter.get_tree_height() as usize,
+        )
+    }
+
     pub fn get_path(&self, index: usize) -> &[u8] {
         let step = self.lms_parameter.get_hash_function_output_size();
         let start = step * index;
